@@ -63,6 +63,7 @@ type Exec struct {
 	frameN  int
 	pendingTag0 []string
 	inlineDefs  bool
+	rangeInst   map[string]bool
 	allocSyms   map[string]bool
 	pureInst    map[string]bool
 	defs        map[string]string
@@ -73,8 +74,9 @@ type Exec struct {
 func newExec(L *Loaded, fc *FuncContract, pkg *types.Package) *Exec {
 	ex := &Exec{L: L, declared: map[string]bool{}, strLits: map[string]string{}, comps: map[string]string{},
 		subTags: map[string]int{}, subSeen: map[string]bool{}, assumed: map[string]bool{}, abstractions: map[string]bool{},
-		immGlobals: map[string]bool{}, defs: map[string]string{}, allocSyms: map[string]bool{}, pureInst: map[string]bool{}, boxed: map[string]bool{}, fc: fc, pkg: pkg, nameCnt: map[string]int{}}
+		immGlobals: map[string]bool{}, defs: map[string]string{}, rangeInst: map[string]bool{}, allocSyms: map[string]bool{}, pureInst: map[string]bool{}, boxed: map[string]bool{}, fc: fc, pkg: pkg, nameCnt: map[string]int{}}
 	ex.sorts = newSorts(ex)
+	curDefs = ex.defs
 	return ex
 }
 
@@ -175,8 +177,14 @@ func (ex *Exec) assumeWellTyped(v T, ty types.Type, reach T, st *State) {
 		}
 	case *types.Slice:
 		ln, cp, off := app("Int", "sl$len", v), app("Int", "sl$cap", v), app("Int", "sl$off", v)
+		// no object is larger than the allocator limit (2^47 bytes on linux/amd64)
+		sz := ex.L.sizes.Sizeof(u.Elem())
+		if sz < 1 {
+			sz = 1
+		}
+		lim := intLit(maxAlloc / sz)
 		ex.assume(tTrue, and(app("Bool", "<=", intLit(0), ln), app("Bool", "<=", ln, cp), app("Bool", "<=", intLit(0), off),
-			app("Bool", "<=", cp, T{"4611686018427387904", "Int"}), app("Bool", "<=", off, T{"4611686018427387904", "Int"})))
+			app("Bool", "<=", app("Int", "+", off, cp), lim)))
 		ex.assume(tTrue, implies(eq(app("Ref", "sl$arr", v), tNil), eq(cp, intLit(0))))
 		if st != nil {
 			ex.assume(reach, or(eq(app("Ref", "sl$arr", v), tNil), sel(ex.get(st, ex.allocComp()), app("Ref", "sl$arr", v))))
@@ -231,8 +239,43 @@ func (ex *Exec) zeroInit(st *State, lv *LV) {
 		for i := 0; i < u.NumFields(); i++ {
 			ex.zeroInit(st, ex.fieldLV(lv, i))
 		}
+		ex.zeroGhostFields(st, lv.ref, lv.typ)
 	case "array":
 		ex.storeLV(st, lv, ex.sorts.zero(lv.typ))
+	}
+}
+
+// zeroGhostFields: ghost fields of a freshly allocated object start at their zero value.
+func (ex *Exec) zeroGhostFields(st *State, ref T, ty types.Type) {
+	full := typeName(ty)
+	short := full
+	if i := strings.LastIndex(full, "."); i >= 0 {
+		short = full[i+1:]
+	}
+	var names []string
+	for n := range ex.L.contracts.GhostFields {
+		names = append(names, n)
+	}
+	sort.Strings(names)
+	for _, n := range names {
+		g := ex.L.contracts.GhostFields[n]
+		if g.Owner != full && g.Owner != short {
+			continue
+		}
+		env := &Env{ex: ex, cur: st, old: st, vars: map[string]Val{}, pkgPath: g.PkgPath, callerPkg: ex.pkg}
+		comp, gty := env.ghostFieldComp(g)
+		var z T
+		if gty != nil {
+			z = ex.sorts.zero(gty)
+		} else {
+			es := elemSort(ex.comps[comp])
+			if strings.HasPrefix(es, "(Array") && elemSort(es) == "Bool" {
+				z = ex.constArray(domSort(es), "Bool", tFalse)
+			} else {
+				continue
+			}
+		}
+		ex.set(st, comp, store(ex.get(st, comp), ref, z))
 	}
 }
 
@@ -353,7 +396,15 @@ func (ex *Exec) immutableGlobalValue(g *ssa.Global) (T, bool) {
 			ex.assumed["immutable package-level interface variable "+g.Pkg.Pkg.Name()+"."+g.Name()+" is non-nil and distinct from the other sentinels"] = true
 		} else {
 			ex.assumed["package-level variable "+g.Pkg.Pkg.Name()+"."+g.Name()+" is never reassigned after init (checked for loaded packages, assumed for dependencies)"] = true
-			_ = v
+			// what a package-level variable refers to exists when the function is entered
+			ex.allocComp()
+			switch s {
+			case "Ref":
+				ex.decls = append(ex.decls, fmt.Sprintf("(assert (or (= %s nil) (select Alloc$init %s)))", v.s, v.s))
+			case "Slice":
+				ex.decls = append(ex.decls, fmt.Sprintf("(assert (or (= (sl$arr %s) nil) (select Alloc$init (sl$arr %s))))", v.s, v.s),
+					fmt.Sprintf("(assert (and (<= 0 (sl$len %s)) (<= (sl$len %s) (sl$cap %s)) (<= 0 (sl$off %s))))", v.s, v.s, v.s, v.s))
+			}
 		}
 	}
 	return T{name, s}, true
